@@ -392,6 +392,33 @@ func TestVerifSession(t *testing.T) {
 	if st, _, _, _ := short.Check(tok2); st == http.StatusOK {
 		sViolate("expiry:expired-accepted-first-presentation", "token accepted 5.6 s after issue with a 4 s lifetime", nil)
 	}
+	// the sub-second band around the limits: time stamps have a resolution of one second, the clock has not.  In the middle of a
+	// wall-clock second a token stamped (now - lifetime) is older than the lifetime, one stamped (now + 1) is from the future.
+	for rep := 0; rep < 3; rep++ {
+		for {
+			if f := time.Now().Nanosecond(); f > 350e6 && f < 600e6 {
+				break
+			}
+			time.Sleep(5 * time.Millisecond)
+		}
+		now := time.Now().Unix()
+		mk := func(ts int64) string {
+			_, _, n, c := short.sealToken(fmt.Sprintf("dora:false:%d", ts))
+			return enc(n, c)
+		}
+		for _, pr := range []struct {
+			name string
+			ts   int64
+			want bool
+		}{{"older-than-lifetime-by-half-a-second", now - 4, false}, {"younger-than-lifetime-by-half-a-second", now - 3, true},
+			{"from-the-future-by-half-a-second", now + 1, false}, {"stamped-this-second", now, true}} {
+			st, _, _, _ := short.Check(mk(pr.ts))
+			sChecks++
+			if (st == http.StatusOK) != pr.want && time.Now().Unix() == now { // (the verdict belongs to this second only)
+				sViolate("expiry:boundary:"+pr.name, fmt.Sprintf("lifetime 4 s, token stamped %+d s relative to the current second, checked %.2f s into it: status %d", pr.ts-now, float64(time.Now().Nanosecond())/1e9, st), nil)
+			}
+		}
+	}
 	// several instances created at the same moment (one per web listener at start-up): no instance accepts another one's
 	// tokens, and none accepts a token sealed under the all-zero key (which everybody knows)
 	zeroKey := func(user string) string {
